@@ -31,9 +31,25 @@ func scriptItems(r *rt.Run, nRandom int) ([]item, map[string]any) {
 	x := &gen{g: g, rnd: seeded(r.Seed)}
 	c := &collector{}
 	kinds, members, unreachable := x.sweepMembers(c.emit)
+	n0 := len(c.items)
 	x.sweepLiterals(c.emit)
 	x.hand(c.emit)
+	// every literal-sweep and hand-written script also as a CRLF / CR / mixed file
+	for _, it := range append([]item{}, c.items[n0:]...) {
+		eolVariants(it, c.emit)
+	}
+	n1 := len(c.items)
 	tried, kept := x.randomScripts(nRandom, c.emit)
+	// ... and every fourth random composition as a CRLF file
+	for i, it := range append([]item{}, c.items[n1:]...) {
+		if i%4 == 0 {
+			eolVariants(it, func(v item) {
+				if strings.HasSuffix(v.Tag, "+crlf") {
+					c.emit(v)
+				}
+			})
+		}
+	}
 	nm := 0
 	for _, k := range g.order {
 		nm += len(k.Members)
@@ -58,7 +74,7 @@ func kernelItems(r *rt.Run) ([]item, map[string]any) {
 		for _, red := range redundant {
 			ts := toks(t, red)
 			for _, st := range styles {
-				out = append(out, item{Cls: "expr", Src: render(ts, st), Toks: ts, ML: (st == 2 || st >= 4) && hasBinOp(ts), Tag: fmt.Sprintf("%s/s%d/r%d", tag, st, red)})
+				out = append(out, item{Cls: "expr", Src: render(ts, st), Toks: ts, ML: ((st == 2 || st >= 4) && hasBinOp(ts)) || newlineMakesMultiLine(ts), Tag: fmt.Sprintf("%s/s%d/r%d", tag, st, red)})
 			}
 		}
 	}
@@ -71,6 +87,14 @@ func kernelItems(r *rt.Run) ([]item, map[string]any) {
 					add(T{k, op, l, rr}, "all15", []int{0, 1, 2, 3, 5}, []int{0, 2})
 				}
 			}
+		}
+	}
+	// token values with line ends / control characters inside: Format must write them byte for byte
+	ctl := []T{leaf("str", "a\r\nb"), leaf("str", "a\rb"), leaf("str", "a\tb"), leaf("str", "a\nb"), leaf("ref", "x\r\ny"), leaf("ref", "x\ty"), leaf("str", "1m")}
+	for _, l := range ctl {
+		for _, t := range []T{l, {"un", "-", l}, {"fn", "f", l}, {"fn", "f", leaf("int", "1"), l}, {"bin", "+", leaf("ref", "x"), l}, {"bin", "+", l, leaf("ref", "x")},
+			{"bin", "==", T{"par", "+", l, leaf("int", "1")}, l}} {
+			add(t, "ctl", []int{0, 1, 3}, []int{0, 2})
 		}
 	}
 	d2 := enumTrees(2, leaves2, allBinOps, unOps, []int{0, 1, 2})
@@ -115,6 +139,28 @@ func kernelItems(r *rt.Run) ([]item, map[string]any) {
 	}
 	_ = sampled
 	return out, map[string]any{"kernel_depth2_trees": n2, "kernel_trees_depth_le3_in_model": nAll, "kernel_depth3_parseable_trees_run": n3, "kernel_deep_random": deep, "kernel_exprs": len(out)}
+}
+
+// newlineMakesMultiLine: a token VALUE contains a newline and the expression has an operator or
+// a second argument - the parser then finds the enclosing node multi-line and Format breaks
+// the line (layout only; the model's text is the single-line one).
+func newlineMakesMultiLine(ts []tok) bool {
+	nl := false
+	for _, t := range ts {
+		nl = nl || strings.Contains(t[1], "\n")
+	}
+	if !nl {
+		return false
+	}
+	if hasBinOp(ts) {
+		return true
+	}
+	for _, t := range ts {
+		if t[0] == "comma" {
+			return true
+		}
+	}
+	return false
 }
 
 func hasBinOp(ts []tok) bool {
@@ -263,7 +309,7 @@ func Scan(r *rt.Run) error {
 			fmt.Sscan(r.Args[i+1], &k)
 			var det []item
 			for _, it := range items {
-				if it.Cls != "random" {
+				if it.Cls != "random" && it.Cls != "eol" {
 					det = append(det, it)
 				}
 			}
